@@ -70,6 +70,7 @@ def run(chk):
     _sequence(chk, repo, folder)
     _ack(chk, repo, folder)
     _crc(chk, repo, folder)
+    _writers(chk, repo, folder)
     _copies(chk, repo, folder)
 
 
@@ -304,6 +305,18 @@ def _crc(chk, repo, folder):
     chk.check(ok, "R6", f"{SB}:CrcXmodem | CRC-16/XMODEM", f"{SB}:{crc.node.lineno}", "the block CRC is not binascii.crc_hqx chained from 0")
     base = repo.cls(SB, "SdoBase", "C12.R6")
     chk.check("crc_cls" in base.consts and src(base.consts["crc_cls"]) == "CrcXmodem", "R6", f"{SB}:SdoBase.crc_cls", f"{SB}:{base.node.lineno}", "crc_cls is not CrcXmodem")
+
+
+def _writers(chk, repo, folder):
+    cls = repo.cls(CL, C, "C12.R6")
+    allowed = {"_retransmitting": {"__init__", "_retransmit"}, "crc_supported": {"__init__"}, "_crc": {"__init__"}}
+    for attr, ok_in in allowed.items():
+        for mname, m in cls.methods.items():
+            for s_ in attr_stores(m.node, attr):
+                chk.check(mname in ok_in, "R6", f"{CL}:{C}.{mname} | writer of {attr}", m.loc(s_),
+                          f"`{src(s_)}` outside {sorted(ok_in)}: " + ("a clean acknowledge in the middle of a retransmission drops the flag and the remaining resent segments are "
+                          "summed into the CRC a second time" if attr == "_retransmitting" else "the negotiated CRC setting is changed during the transfer"))
+    chk.ok("R6", f"{CL}:{C} | writers of CRC state", f"{CL}:{cls.node.lineno}", "scanned")
 
 
 def _copies(chk, repo, folder):
